@@ -5,6 +5,12 @@ NOTES={
  "C09-A":"patch re-ported to the current HEAD by hand (the alias arm of make_ty_from_typeref gained the expanding_aliases guard in fix 56c8c4e); same one-line omission",
  "C15-B":"demonstration adapted: since fix e031f7e a column past the end of a line is clamped, so the un-appliable edit in step 2 is now a LINE beyond the end of the document",
  "C10-B":"caught by C02's prefix-operator-in-pattern ladder and by C10's deep-nesting cases (2 MiB query stack)",
+ "C06-D":"third round; first missed (every generated file belonged to a package); caught since workspaces with a source root outside the package graph — which also exposed a genuine defect (fix 1a57c3c)",
+ "C08-D":"third round; first missed; caught since a second project with its own copy of a same-named dependency is opened in the same session",
+ "C09-D":"third round; first missed; caught since `use` binders spelled like a variable used in their own call",
+ "C12-D":"third round; first missed (no reader was ever cancelled 100 ms into a query); caught since the large-module shape and the longer writer pauses; a process abort is confirmed with up to 8 solo re-runs",
+ "C17-D":"third round; first missed; caught since a second pass of definition queries after the root's gleam.toml is opened (package graph assembled again)",
+ "C20-D":"third round; first missed (static workspaces only); caught since workspaces reached through one change carrying two contents for a file",
  "C06-C":"second round; first missed by C06 (no well-typed field read on a record from a module that is not imported); caught since the typed chain workspaces",
  "C08-C":"second round; first missed by C08 (in-process only) while C17 caught it; caught since C08's stage against the real server",
  "C09-C":"second round; first missed; caught since the helper `shadow` (locals spelled like top-level functions) and checked generic helper signatures",
@@ -21,8 +27,8 @@ if os.path.exists(p):
         f=line.rstrip('\n').split('\t')
         if len(f)<3: matrix[f[0]]={"error":f[1] if len(f)>1 else ""}; continue
         matrix[f[0]]={kv.split('=')[0]:int(kv.split('=')[1]) for kv in f[1:]}
-p2='/verif/seeded/round2.tsv'
-if os.path.exists(p2):
+for p2 in ('/verif/seeded/round2.tsv','/verif/seeded/round3.tsv'):
+  if os.path.exists(p2):
     for line in open(p2):
         f=line.rstrip('\n').split('\t')
         if len(f)>=2: matrix[f[0]]={kv.split('=')[0]:int(kv.split('=')[1]) for kv in f[1:]}
@@ -40,7 +46,7 @@ for d in sorted(glob.glob('/verif/seeded/C??-?')):
       "what_i_ran":[
         f"tools/confirm_mutant.sh (scratch worktree /tmp/cm/wt of /repo HEAD, own target dir; removed afterwards): {demo} without the change -> passes; `git apply patch.diff`; {demo} with the change -> fails; `cargo test --workspace --offline` with the change -> every test of the pinned suite that passes on HEAD still passes",
         "tools/mutant.sh patch.diff <property> : `git -C /repo apply`, ./check <property> --tier quick, `git -C /repo checkout -- .`",
-        "tools/matrix.sh : the same against all twenty quick checks (seed 0); exit codes below (second-round changes `-C`: own check only, seeded/round2.tsv)",
+        "tools/matrix.sh : the same against all twenty quick checks (seed 0); exit codes below (later rounds `-C`, `-D`: own check only, seeded/round2.tsv, seeded/round3.tsv)",
       ],
       "quick_check_exit_codes":m,
       "caught_by":sorted(k for k,v in m.items() if v==1),
